@@ -36,6 +36,8 @@ func C20(ctx *core.Ctx) {
 	ctx.Rule("C20.R3", "single closer (Serve) and single sender (subscription handler) of the work queue", 2)
 	ctx.Rule("C20.R4", "no drop: the handler's only discard is the no-reply case and its enqueue is a plain blocking send", 2)
 	ctx.Rule("C20.R5", "Stop sends a fresh reply channel on quit and returns what it receives on it", 2)
+	ctx.Rule("C20.R6", "a request accepted before Stop is answered with its own reply: the worker encodes every reply into a buffer allocated for that message", 2)
+	perMessageTransports(ctx, r, "C20.R6")
 	ctx.Assume("(*nats.Subscription).Drain stops new deliveries and lets pending ones finish; (*nats.Conn).Flush round-trips to the broker; (*nats.Conn).Barrier runs its callback after all previously dispatched subscription callbacks returned")
 
 	serve := r.Fn("C20.R1", "(*fNatsServer).Serve")
